@@ -28,14 +28,24 @@ type solverSpec struct {
 	cmd  []string
 }
 
-func solverCmd(name string, timeoutMs int) solverSpec {
+// solverCmd: the budget is given in "milliseconds on an idle machine" and enforced through the solvers' deterministic
+// resource counters (rlimit), so that a verdict does not depend on how loaded the machine is; the wall-clock limits are
+// only a generous safety net (loadFactor times the budget).
+const loadFactor = 8
+
+func solverCmd(name string, budgetMs int) solverSpec {
+	wall := fmt.Sprintf("-t:%d", budgetMs*loadFactor)
 	switch name {
 	case "z3":
-		return solverSpec{"z3-4.8.12", []string{"z3", "-in", "-smt2", fmt.Sprintf("-t:%d", timeoutMs)}}
+		return solverSpec{"z3-4.8.12", []string{"z3", "-in", "-smt2", wall, fmt.Sprintf("rlimit=%d", budgetMs*6700)}}
+	case "z3-seed2", "z3-seed5":
+		// the same solver on another search path: quantifier instantiation order makes some goals a matter of luck
+		sd := name[len(name)-1:]
+		return solverSpec{"z3-4.8.12", []string{"z3", "-in", "-smt2", wall, fmt.Sprintf("rlimit=%d", budgetMs*6700), "smt.random_seed=" + sd, "sat.random_seed=" + sd}}
 	case "z3-new":
-		return solverSpec{"z3-5.1.0", []string{"z3-new", "-in", "-smt2", fmt.Sprintf("-t:%d", timeoutMs)}}
+		return solverSpec{"z3-5.1.0", []string{"z3-new", "-in", "-smt2", wall, fmt.Sprintf("rlimit=%d", budgetMs*2500)}}
 	case "cvc5":
-		return solverSpec{"cvc5-1.0.3", []string{"cvc5", "--lang=smt2", fmt.Sprintf("--tlimit=%d", timeoutMs), "-"}}
+		return solverSpec{"cvc5-1.0.3", []string{"cvc5", "--lang=smt2", fmt.Sprintf("--tlimit=%d", budgetMs*loadFactor), "-"}}
 	}
 	panic("unknown solver " + name)
 }
@@ -124,6 +134,9 @@ func (x *Exec) solveAll(obls []*Obligation, opts SolveOpts) []*CheckResult {
 				o := obls[j.i]
 				q := x.buildQuery(prelude, o)
 				h := sha1.Sum([]byte(q))
+				if d := os.Getenv("GOVC_DUMPALL"); d != "" {
+					os.WriteFile(filepath.Join(d, fmt.Sprintf("%s__%x.smt2", sanitizeFile(o.FullName()), h[:6])), []byte(q), 0o644)
+				}
 				mu.Lock()
 				if c, ok := cache[h]; ok {
 					mu.Unlock()
@@ -170,7 +183,7 @@ func (x *Exec) solveOne(o *Obligation, q string, opts SolveOpts) *CheckResult {
 	if o.Kind == "cover" {
 		first = 1000
 	}
-	st, out, ms := runSolver(ctx, solverCmd("z3", first), q, first+2000)
+	st, out, ms := runSolver(ctx, solverCmd("z3", first), q, first*loadFactor+5000)
 	res.Status, res.Backend, res.Ms, res.Output = st, "z3-4.8.12", ms, out
 	if st == "unsat" || (o.Kind == "cover" && st == "sat") {
 		if opts.Tier != "thorough" || o.Kind == "cover" {
@@ -181,23 +194,24 @@ func (x *Exec) solveOne(o *Obligation, q string, opts SolveOpts) *CheckResult {
 		// unknown/timeout on `false`: not refuted, which is what a cover needs; unsat: vacuous
 		return res
 	}
-	// stage 2: race z3-new and cvc5
+	// stage 2: race z3-new, cvc5 and two reseeded runs of z3 4.8.12
 	type r2 struct {
 		st, out, be string
 		ms          int64
 	}
 	cctx, cancel := context.WithCancel(ctx)
-	ch := make(chan r2, 2)
-	for _, s := range []string{"z3-new", "cvc5"} {
+	racers := []string{"z3-new", "cvc5", "z3-seed2", "z3-seed5"}
+	ch := make(chan r2, len(racers))
+	for _, s := range racers {
 		go func(s string) {
 			sp := solverCmd(s, opts.SecondMs)
-			st, out, ms := runSolver(cctx, sp, q, opts.SecondMs+2000)
+			st, out, ms := runSolver(cctx, sp, q, opts.SecondMs*loadFactor+5000)
 			ch <- r2{st, out, sp.name, ms}
 		}(s)
 	}
 	got := 0
 	var all []r2
-	for got < 2 {
+	for got < len(racers) {
 		r := <-ch
 		got++
 		all = append(all, r)
@@ -209,7 +223,7 @@ func (x *Exec) solveOne(o *Obligation, q string, opts SolveOpts) *CheckResult {
 				for i := 0; i < n; i++ {
 					<-ch
 				}
-			}(2 - got)
+			}(len(racers) - got)
 			return res
 		}
 	}
@@ -252,15 +266,15 @@ func (x *Exec) solveOne(o *Obligation, q string, opts SolveOpts) *CheckResult {
 
 // group results by obligation name
 type OblSummary struct {
-	Name     string   `json:"name"`
-	Func     string   `json:"function"`
-	Kind     string   `json:"kind"`
-	Checks   int      `json:"path_checks"`
-	Proved   int      `json:"proved"`
-	Backends []string `json:"backends"`
-	Ms       int64    `json:"solver_ms"`
-	Status   string   `json:"status"`
-	Src      string   `json:"clause,omitempty"`
+	Name     string         `json:"name"`
+	Func     string         `json:"function"`
+	Kind     string         `json:"kind"`
+	Checks   int            `json:"path_checks"`
+	Proved   int            `json:"proved"`
+	Backends []string       `json:"backends"`
+	Ms       int64          `json:"solver_ms"`
+	Status   string         `json:"status"`
+	Src      string         `json:"clause,omitempty"`
 	Failed   []*CheckResult `json:"-"`
 }
 
